@@ -1,5 +1,6 @@
 import EupsModel.Lemmas.DepsTotal
 import EupsModel.Lemmas.DepsPinned
+import EupsModel.Lemmas.DepsSound
 /-! C13 — dependency listings are complete and ordered; `uses` is their inverse.
 Property theorems only.  Models: `Model/Topo.lean`, `Model/Deps.lean`; lemmas: `Lemmas/Topo.lean`,
 `Lemmas/TopoSpec.lean`, `Lemmas/TopoTotal.lean`, `Lemmas/Deps.lean`, `Lemmas/DepsFuel.lean`, `Lemmas/DepsTopo.lean`,
@@ -168,6 +169,52 @@ theorem C13_cycle_reported (db : Db) (hns : NoUnsetup db) (top : Prod) (hsv : Si
   · rcases getDependentProducts_total db top true false with h | ⟨h, _⟩
     · exact h
     · exact absurd h (by simp)
+
+/-! ## unsetup lines -/
+
+/-- **An `unsetupRequired` line only takes entries away.**  The property does not say what such a line means for a
+listing; what the code guarantees is one-sided: on every database whose declared table files exist — unsetup lines
+anywhere, dependency cycles included — every product of a returned listing (plain, or topological with or without
+`checkCycles`) is reachable from the root through the *setup* lines of the tables (`Listed` over the database with
+the unsetup lines erased), and is not the root.  (The other inclusion is `C13_listing_is_reach`, for databases
+without unsetup lines.) -/
+theorem C13_unsetup_only_removes (db : Db) (hm : ∀ d ∈ db.decls, d.tableMissing = false) (top : Prod)
+    (topological cc : Bool) (hmode : topological = true ∨ (topological = false ∧ cc = false)) (out : List Entry)
+    (h : getDependentProducts db db.fuel top topological cc = .ok out) :
+    ∀ e ∈ out, Listed db.setupOnly [] top e.prod ∧ e.prod ≠ top := by
+  have hmp : ∀ p, db.tableMissing p = false := by
+    intro p
+    unfold Db.tableMissing
+    split
+    · split
+      · rename_i d hd; exact hm d (List.mem_of_find?_eq_some hd)
+      · rfl
+    · rfl
+  rcases hmode with ht | ⟨ht, hc⟩
+  · subst ht
+    obtain ⟨out1, st1, st2, ls, h1, _, _, rfl⟩ := getDependentProducts_topo_unfold (hmp top) h
+    obtain ⟨o, hd, rfl⟩ := listing_unfold h1
+    intro e he
+    obtain ⟨e', he', hp, _, _⟩ := uniqueLast_sound _ _ he
+    rw [mem_sortStable] at he'
+    simp only [List.mem_map, List.mem_filter, bne_iff_ne, ne_eq] at he'
+    obtain ⟨e1, ⟨he1, hne⟩, rfl⟩ := he'
+    have : e.prod = e1.prod := by rw [hp]; split <;> rfl
+    rw [this]
+    exact ⟨depsOfG_sound db hmp [] _ _ _ _ _ _ _ _ hd e1 he1, hne⟩
+  · subst ht hc
+    unfold getDependentProducts at h
+    simp only [hmp top, Bool.false_eq_true, if_false] at h
+    cases h1 : listing db db.fuel [] top with
+    | none => simp [h1] at h
+    | some r =>
+      obtain ⟨out1, st1⟩ := r
+      simp only [h1, finishListing, Bool.or_self, Bool.not_false, if_true, Outcome.ok.injEq] at h
+      subst h
+      obtain ⟨o, hd, rfl⟩ := listing_unfold h1
+      intro e he
+      obtain ⟨he1, hne⟩ := List.mem_filter.mp he
+      exact ⟨depsOfG_sound db hmp [] _ _ _ _ _ _ _ _ hd e he1, by simpa using hne⟩
 
 /-! ## several versions in one closure (D31): what does hold -/
 
@@ -476,6 +523,9 @@ theorem C13_unsetup_cycle_pinned_witness :
     depsOfPinned d32 (4 * d32.fuel) [] ⟨Str.ofString "a", some (Str.ofString "1"), true⟩ true 1 St.empty = none ∧
     ∃ out, getDependentProducts d32 d32.fuel ⟨Str.ofString "a", some (Str.ofString "1"), true⟩ true false = .ok out :=
   ⟨by decide, by decide, _, rfl⟩
+
+/-- non-vacuity of `C13_unsetup_only_removes`: `d32` has an unsetup line (inside a cycle) and all its table files -/
+example : (∀ d ∈ d32.decls, d.tableMissing = false) ∧ ¬ NoUnsetup d32 := by decide
 
 /-- **Pinned tree, D18**: `C13_topological_total` was false before the repair of `Product.__lt__` — on this
 database (no unsetup lines) the layer that `topologicalSort` sorts for the root `a 1` holds the placeholders
